@@ -146,5 +146,13 @@ func VerifC05Histories() {
 		s.checkTable("step")
 		s.checkVoted()
 	}
+	// every history ends with two more cleanup cycles (the periodic cleanup goes on): records queued
+	// for release by the last real cleanup are released by the first, and nothing a second time
+	for i := 0; i < 2; i++ {
+		w.box.clean()
+		s.checkReleased()
+		s.checkTable("final cleanup")
+		s.checkVoted()
+	}
 	verifrt.Reach("C05.history-done")
 }
